@@ -46,7 +46,11 @@ var (
 // netfilter 192.168.0.4/30). 1: the netfilter subnet starts at the network address of the home LAN (host .2, router .5,
 // netfilter 192.168.0.0/30), so that the two subnets share their network address.
 func setLayout(i int) {
+	dHome = netip.MustParsePrefix("192.168.0.0/29")
 	switch i {
+	case 3: // a home LAN wider than /24 (network and broadcast address are not in the last octet alone); explored shallowly
+		dHome = netip.MustParsePrefix("192.168.0.0/22")
+		dHost, dRouter, dNetf = netip.MustParseAddr("192.168.0.6"), netip.MustParseAddr("192.168.0.1"), netip.MustParsePrefix("192.168.0.6/30")
 	case 2: // the default of dhcp4.New when no netfilter prefix is configured: same prefix length as the home LAN
 		dHost, dRouter, dNetf = netip.MustParseAddr("192.168.0.6"), netip.MustParseAddr("192.168.0.1"), netip.MustParsePrefix("192.168.0.6/29")
 	case 1:
@@ -142,10 +146,12 @@ type dObserver struct {
 	everOffer    map[int]netip.Addr // client -> the last address ever offered to it (kept across NAKs: a client may replay an old selection)
 	everOfferXID map[int]uint32
 	nextXID      uint32
+	ackCap       map[int]bool // capture state of the client at its last acknowledgement
+	movedSince   map[int]bool // the client's capture state differed from ackCap at some point since that acknowledgement
 }
 
 func newObserver() *dObserver {
-	return &dObserver{maybe: map[int]dAck{}, lease: map[int]dAck{}, acks: map[int]dAck{}, offer: map[int]netip.Addr{}, offerXID: map[int]uint32{}, everOffer: map[int]netip.Addr{}, everOfferXID: map[int]uint32{}, nextXID: 0x1000}
+	return &dObserver{maybe: map[int]dAck{}, lease: map[int]dAck{}, acks: map[int]dAck{}, offer: map[int]netip.Addr{}, offerXID: map[int]uint32{}, everOffer: map[int]netip.Addr{}, everOfferXID: map[int]uint32{}, nextXID: 0x1000, ackCap: map[int]bool{}, movedSince: map[int]bool{}}
 }
 
 func (o *dObserver) expire(now int64) {
@@ -240,9 +246,11 @@ type dhcpResult struct {
 	ops       []vfs.Op   // every operation on the in-memory device, in order
 	opsAt     []int      // len(ops) at the end of each step (opsAt[0]: after construction)
 	leases    []dhcp4.VerifLease
-	endTime   int64     // virtual time at the end of the history (a restart happens at that time)
-	acked     []binding // acknowledged bindings according to the observer (the truth for C18)
-	maybe     []binding // bindings that may or may not survive
+	endTime   int64           // virtual time at the end of the history (a restart happens at that time)
+	movedIDs  map[string]bool // client ids whose capture state changed since their address was acknowledged
+	capEnd    []bool          // capture state of every client at the end of the history
+	acked     []binding       // acknowledged bindings according to the observer (the truth for C18)
+	maybe     []binding       // bindings that may or may not survive
 }
 
 func dhcpNIC() *packet.NICInfo {
@@ -400,9 +408,9 @@ func runDHCP(alpha []dEvent, hist []int, o dhcpOpts) *dhcpResult {
 							req = dIP(2)
 						}
 					case "bcast":
-						req = dIP(7)
+						req = lastAddr(dHome)
 					case "net":
-						req = dIP(0)
+						req = dHome.Addr()
 					case "offsub":
 						req = netip.MustParseAddr("10.0.0.1")
 					case "host":
@@ -556,6 +564,11 @@ func runDHCP(alpha []dEvent, hist []int, o dhcpOpts) *dhcpResult {
 					obs.acks[k] = a
 				}
 			}
+			for k, c := range obs.ackCap {
+				if s.IsCaptured(dClients[k]) != c {
+					obs.movedSince[k] = true
+				}
+			}
 			// ---- observe the replies of this step
 			step := dhcpStep{}
 			now := vsched.NowNanos()
@@ -662,7 +675,7 @@ func runDHCP(alpha []dEvent, hist []int, o dhcpOpts) *dhcpResult {
 					fail("unique", "ack-tracked-by-other-mac", fmt.Sprintf("ACK of %v to c%d while the session tracks it for %x", a, k+1, m))
 				}
 				// ---- C12: segregation and transaction conformance
-				wantRouter, wantDNS, wantMask := dRouter, dDNS, []byte{255, 255, 255, 248}
+				wantRouter, wantDNS, wantMask := dRouter, dDNS, []byte(net.CIDRMask(dHome.Bits(), 32))
 				if captured {
 					wantRouter, wantDNS, wantMask = dHost, dFamDNS, []byte(net.CIDRMask(dNetf.Bits(), 32))
 				}
@@ -709,6 +722,7 @@ func runDHCP(alpha []dEvent, hist []int, o dhcpOpts) *dhcpResult {
 						lt = uint32(opt[51][0])<<24 | uint32(opt[51][1])<<16 | uint32(opt[51][2])<<8 | uint32(opt[51][3])
 					}
 					obs.acks[k] = dAck{ip: a, expiry: now + int64(lt)*int64(time.Second), captured: captured}
+					obs.ackCap[k], obs.movedSince[k] = captured, false
 					obs.lease[k] = obs.acks[k]
 					delete(obs.maybe, k)
 					delete(obs.offer, k)
@@ -739,10 +753,15 @@ func runDHCP(alpha []dEvent, hist []int, o dhcpOpts) *dhcpResult {
 		res.leases = h.VerifLeases()
 		res.endTime = vsched.NowNanos()
 		obs.expire(res.endTime)
+		res.movedIDs = map[string]bool{}
 		for k := 0; k < len(dClients); k++ {
+			res.capEnd = append(res.capEnd, s.IsCaptured(dClients[k]))
 			if a, ok := obs.lease[k]; ok {
 				id := hex.EncodeToString(dID(k))
 				res.acked = append(res.acked, binding{id, hex.EncodeToString(dClients[k]), a.ip})
+			}
+			if obs.movedSince[k] || obs.ackCap[k] != s.IsCaptured(dClients[k]) {
+				res.movedIDs[hex.EncodeToString(dID(k))] = true
 			}
 		}
 		sort.Slice(res.acked, func(i, j int) bool { return res.acked[i].id < res.acked[j].id })
@@ -827,21 +846,24 @@ func dhcpSeeds(alpha []dEvent) [][]int {
 		{find("discover", 3, "none"), find("discover", 0, "other"), r1}, // the address on offer to c4 was acknowledged to c1 (same hardware address)
 		{find("discover", 0, "free"), r1},                               // c1 bound to the address that a station with a static configuration uses later ("seen")
 		{d1, r1, d1, find("capture", 0, "")},                            // a bound client that is negotiating again is captured: its next message moves it to the other subnet
+		{d1, r1, d1, d1},                                                // a bound client that negotiates again twice: the second offer need not be its current address
+		{d1, r1, tick2h, tickMin, d1, tickMin},                          // a bound client, forgotten by the session, negotiates again and lets the offer run out
 	}
 }
 
 type layoutMode struct {
 	layout int
 	mode   dhcp4.Mode
+	depth  int // 0: the tier's depth
 }
 
 // layoutsAndModes: both address plans for the first mode, the first plan for the others.
 func layoutsAndModes(modes []dhcp4.Mode) []layoutMode {
 	var l []layoutMode
 	for i, m := range modes {
-		l = append(l, layoutMode{0, m})
+		l = append(l, layoutMode{0, m, 0})
 		if i == 0 {
-			l = append(l, layoutMode{1, m}, layoutMode{2, m})
+			l = append(l, layoutMode{1, m, 0}, layoutMode{2, m, 0}, layoutMode{3, m, 1})
 		}
 	}
 	return l
@@ -864,7 +886,11 @@ func dhcpExplore(c *core.Ctx, class string) {
 		mode := lm.mode
 		o := dhcpOpts{mode: mode, layout: lm.layout, poison: class == "frame"}
 		setLayout(o.layout)
-		ex := &eseq.Explorer{NEvents: len(alpha), Depth: depth, Shard: c.Shard, NShards: c.NShards, Seeds: dhcpSeeds(alpha)}
+		d := depth
+		if lm.depth > 0 {
+			d = lm.depth
+		}
+		ex := &eseq.Explorer{NEvents: len(alpha), Depth: d, Shard: c.Shard, NShards: c.NShards, Seeds: dhcpSeeds(alpha)}
 		if c.Deadline > 0 {
 			ex.Deadline = time.Unix(c.Deadline-20, 0)
 		}
@@ -931,7 +957,7 @@ func dhcpExplore(c *core.Ctx, class string) {
 			c.Cap(ex.CapHit)
 		}
 	}
-	c.Res.Bound = fmt.Sprintf("depth %d from the initial state and from %d scripted non-initial states; alphabet of %d events; %d operating mode(s); 3 address plans for the first mode", depth, len(dhcpSeeds(alpha)), len(alpha), len(modes))
+	c.Res.Bound = fmt.Sprintf("depth %d from the initial state and from %d scripted non-initial states; alphabet of %d events; %d operating mode(s); 3 address plans for the first mode plus a /22 home LAN at depth 1", depth, len(dhcpSeeds(alpha)), len(alpha), len(modes))
 	var names []string
 	for _, e := range alpha {
 		names = append(names, e.String())
